@@ -40,6 +40,11 @@ class Repo:
                 raise AnalysisError('cannot parse %s: %s' % (path, exc))
         for t in s.trees.values():
             for node in ast.walk(t):
+                if isinstance(node, (ast.FunctionDef, ast.AsyncFunctionDef, ast.Lambda)) and node.args.posonlyargs:
+                    # `def f(a, b, /, c)`: for the analysis the positional-only marker changes nothing but which CALLS are legal;
+                    # the parameters are kept in one positional list so that no rule has to know about the marker
+                    node.args.args = list(node.args.posonlyargs) + list(node.args.args)
+                    node.args.posonlyargs = []
                 for ch in ast.iter_child_nodes(node):
                     ch._parent = node
 
